@@ -290,7 +290,8 @@ def r5(ctx, F, rule, sfx):
     me = I.Sym(nf.sym_atom('vi'), 'voronoi::VoronoiIntegrator<WithoutFaces>')
     v, _ = ip.call_body(ib, [me])
     ctx.evaluations += ip.evaluations
-    runs = [r for r in ip.closure_runs if any(e.callee == wfb['path'] for e in r['events'])]
+    wf_txt = 'call:' + strip_generics(wfb['path']) + '('
+    runs = [r for r in ip.closure_runs if any(e.callee == wfb['path'] for e in r['events']) or wf_txt in repr(r['result'])]      # closure or `map(ConvexCell::with_faces)`
     ok = len(runs) == 1 and stream_shape(runs[0]['stream']) == ('elem', 'vi.cells')
     ctx.check(rule, 'integrator-with_faces-maps-every-cell' + sfx, ok, '%d mapping closure(s)' % len(runs), 'cells.map(|c| c.map(ConvexCell::with_faces))', where(ib), key_extra='vi-with-faces')
 
@@ -463,6 +464,16 @@ def r7(ctx, F, rule, sfx):
     ctx.check(rule, 'connections-are-concatenated-lists' + sfx, okc, '%s over %s' % (' <- '.join(names), repr(src)[:60]), 'lists.into_iter().flatten().collect()', w, key_extra='concat')
 
 
+def _in_range(leaf):
+    """Truth value of a comparison between an index and a length under "index < length"."""
+    op, a, b = leaf.args
+    len_left = repr(a).startswith('len(') or ('len(' in repr(a) and 'len(' not in repr(b))
+    # index < len: true;  len <= index: false;  len > index: true;  index >= len: false
+    if len_left:
+        return {'<=': False, '<': False, '>': True, '>=': True}[op]
+    return {'<': True, '<=': True, '>': False, '>=': False}[op]
+
+
 def r8(ctx, F, rule, sfx):
     import re
     sb = F.body_by_suffix('ConvexCell::sort_face_vertices')
@@ -528,7 +539,7 @@ def r8(ctx, F, rule, sfx):
             x = I.subst(value, {ps[0]: RF.const(p_)})
             def val(leaf):
                 if leaf.op == 'cmp' and 'len(' in repr(leaf) and leaf.args[0] in ('<=', '<', '>', '>='):
-                    return False        # "candidates exhausted": not on the match arm
+                    return _in_range(leaf)        # on the match arm the candidate index is inside the list
                 raise AnalysisIncomplete('rotation depends on %r' % (leaf,))
             x = dtab.evaluate(as_rf(x), val)
             mm = re.match(r'^(.*)\.dual\[(\d)\]$', repr(x))
@@ -584,7 +595,9 @@ def r8(ctx, F, rule, sfx):
     ctx.check(rule, 'exchange-on-match-refusal-otherwise' + sfx, okg, 'exchange when %s; next candidate when %s' % (gtxt[-80:], [b[-80:] for b in btxt][:1]), 'swap on contains, test_idx += 1 otherwise', w, key_extra='arms')
     # outer recurrences on the match arm: position + 1, plane looked for = dual[(p+1) mod 3] of the matched vertex
     def val_match(leaf):
-        return False        # "candidates exhausted" is false on the match arm
+        if leaf.op == 'cmp' and 'len(' in repr(leaf) and leaf.args[0] in ('<=', '<', '>', '>='):
+            return _in_range(leaf)
+        return False
     okn = True
     obs = []
     for g, vals in Lo['back']:
